@@ -22,6 +22,11 @@ type RefShape struct {
 	Color int     `json:"color,omitempty"`
 	X     float64 `json:"x,omitempty"`
 	Count int     `json:"count"`
+	// Mk: the shape is content of a <marker>; Count is then the number of marker instances the
+	// vertex rules of SVG 1.1 §11.6.2 give (0 when the marker is never drawn on the main canvas).
+	// Loose: the count is not asserted (only bounded), see RefSpec.MarkerLoose.
+	Mk    bool `json:"mk,omitempty"`
+	Loose bool `json:"loose,omitempty"`
 }
 
 // RefSpec is the generator-side knowledge about a reference graph.
@@ -38,6 +43,22 @@ type RefSpec struct {
 	CycMask   int `json:"cyc_mask"`
 	CycMarker int `json:"cyc_marker"`
 	CycUsed   int `json:"cyc_used"`
+	// definitions (clipPath / mask / marker / pattern) with two or more children
+	MultiChild int `json:"multi_child,omitempty"`
+	// definitions on a cycle that goes through a definition of another kind (marker -> clipPath -> marker)
+	CycCross int `json:"cyc_cross,omitempty"`
+	// definitions with a reference leading back to themselves that sits in a child other than the
+	// first one, resp. below a <g> of the content; rendered elements referencing a definition that
+	// leads to such a definition; markers with such a back reference really instantiated by the model
+	CycLater      int `json:"cyc_later,omitempty"`
+	CycNested     int `json:"cyc_nested,omitempty"`
+	CycLaterUsed  int `json:"cyc_later_used,omitempty"`
+	CycLaterDrawn int `json:"cyc_later_drawn,omitempty"`
+	// MarkerDraws: marker instances of the finite expansion (vertices × uses).  MarkerLoose: the
+	// number of instances is not asserted for this document (a marker cycle was cut, markers on a
+	// <use>, mid markers of a <polygon>) and why.
+	MarkerDraws int    `json:"marker_draws,omitempty"`
+	MarkerLoose string `json:"marker_loose,omitempty"`
 }
 
 type rnode struct {
@@ -48,16 +69,39 @@ type rnode struct {
 	children []*rnode
 	color    int // probe shapes: unique colour (0 = not a probe)
 	probeX   float64
+	refs     []nref // clip-path / mask / marker* / filter attributes
+	nverts   int    // vertices that can carry markers: line 2, polyline / polygon one per point, path one per command
+	closed   bool   // polygon
+	inMarker bool
+}
+
+// nref is one referencing presentation attribute: attr="url(#id)".
+type nref struct{ attr, id string }
+
+// markerAt returns the id the element gives for the marker position (marker-start / -mid / -end);
+// the generator never combines the `marker` shorthand with the specific attributes.
+func (n *rnode) markerAt(pos string) string {
+	for _, rf := range n.refs {
+		if rf.attr == pos || rf.attr == "marker" {
+			return rf.id
+		}
+	}
+	return ""
 }
 
 type refGen struct {
 	r      *rand.Rand
 	ids    []string          // ids that exist
 	byID   map[string]*rnode // id -> element
+	defs   []*rnode
 	nextC  int
 	nextX  float64
 	spec   *RefSpec
 	counts map[int]int
+	// laterBack: definitions with a back reference in a child other than the first one;
+	// leadsLater: definitions from which such a definition can be reached (itself included)
+	laterBack  map[string]bool
+	leadsLater map[string]bool
 }
 
 func (g *refGen) anyID(kinds ...string) string {
@@ -68,24 +112,87 @@ func (g *refGen) anyID(kinds ...string) string {
 	return g.ids[g.r.Intn(len(g.ids))]
 }
 
+// fitID: half of the time a definition of the kind the attribute wants (when there is one),
+// otherwise any id (existing of any kind, or missing).
+func (g *refGen) fitID(attr string) string {
+	if g.r.Intn(2) == 0 {
+		var fit []string
+		for _, d := range g.defs {
+			if kindMatches(attr, d.tag) {
+				fit = append(fit, d.id)
+			}
+		}
+		if len(fit) > 0 {
+			return fit[g.r.Intn(len(fit))]
+		}
+	}
+	return g.anyID()
+}
+
 func (g *refGen) probe() *rnode {
 	g.nextC++
 	c := 0x400000 + g.nextC*0x010305
 	n := &rnode{color: c}
 	x, y := float64(5*g.r.Intn(30)), float64(5*g.r.Intn(30))
-	switch g.r.Intn(4) {
+	switch g.r.Intn(6) {
 	case 0:
 		n.tag = "rect"
 		n.attrs = fmt.Sprintf(` x="%g" y="%g" width="%d" height="%d"`, x, y, 5+g.r.Intn(40), 5+g.r.Intn(40))
 	case 1:
 		n.tag = "path"
 		n.attrs = fmt.Sprintf(` d="M%g %g l20 0 l0 20 z"`, x, y)
+		n.nverts = 4 // one vertex per segment end, the closing segment included
 	case 2:
 		n.tag = "line"
 		n.attrs = fmt.Sprintf(` x1="%g" y1="%g" x2="%g" y2="%g" stroke="#111"`, x, y, x+30, y+10)
-	default:
+		n.nverts = 2
+	case 3:
 		n.tag = "polygon"
 		n.attrs = fmt.Sprintf(` points="%g,%g %g,%g %g,%g"`, x, y, x+25, y, x, y+25)
+		n.nverts, n.closed = 3, true
+	case 4:
+		n.tag = "polyline"
+		n.nverts = 2 + g.r.Intn(3)
+		pts := ""
+		for i := 0; i < n.nverts; i++ {
+			pts += fmt.Sprintf(" %g,%g", x+float64(10*i), y+float64(15*(i%2)))
+		}
+		n.attrs = fmt.Sprintf(` points="%s"`, pts[1:])
+	default:
+		n.tag = "path"
+		n.nverts = 2 + g.r.Intn(3)
+		d := fmt.Sprintf("M%g %g", x, y)
+		for i := 1; i < n.nverts; i++ {
+			d += []string{" l15 5", " h12", " v-9", " q5 5 10 0"}[g.r.Intn(4)]
+		}
+		n.attrs = fmt.Sprintf(` d="%s"`, d)
+	}
+	n.attrs += fmt.Sprintf(` fill="%s"`, colorAttr(c))
+	return n
+}
+
+// markerContent is a probe shape sized for a 4×4 marker; three of four kinds have vertices and
+// can carry markers themselves.
+func (g *refGen) markerContent() *rnode {
+	g.nextC++
+	c := 0x400000 + g.nextC*0x010305
+	n := &rnode{color: c, inMarker: true}
+	switch g.r.Intn(4) {
+	case 0:
+		n.tag = "rect"
+		n.attrs = ` width="3" height="2"`
+	case 1:
+		n.tag = "path"
+		n.attrs = ` d="M0 0 L4 2 L0 4 z"`
+		n.nverts = 4
+	case 2:
+		n.tag = "line"
+		n.attrs = ` x1="0" y1="1" x2="4" y2="3" stroke="#111"`
+		n.nverts = 2
+	default:
+		n.tag = "polyline"
+		n.attrs = ` points="0,0 4,2 0,4"`
+		n.nverts = 3
 	}
 	n.attrs += fmt.Sprintf(` fill="%s"`, colorAttr(c))
 	return n
@@ -104,6 +211,9 @@ func (n *rnode) write(sb *strings.Builder, r *rand.Rand) {
 		fmt.Fprintf(sb, ` id="%s"`, n.id)
 	}
 	sb.WriteString(n.attrs)
+	for _, rf := range n.refs {
+		fmt.Fprintf(sb, ` %s="url(#%s)"`, rf.attr, rf.id)
+	}
 	if n.href != "" {
 		sb.WriteString(hrefAttr(r, n.href))
 	}
@@ -118,9 +228,18 @@ func (n *rnode) write(sb *strings.Builder, r *rand.Rand) {
 	sb.WriteString("</" + n.tag + ">")
 }
 
-// expand models the rendering of a subtree: probes are counted, <use> is replaced by its target.
-// inProgress holds the ids whose expansion is under way; revisiting one is a cycle (cut there).
-func (g *refGen) expand(n *rnode, inProgress map[string]bool, render bool, budget *int) {
+func (g *refGen) loose(why string) {
+	if g.spec.MarkerLoose == "" {
+		g.spec.MarkerLoose = why
+	}
+}
+
+// expand models the rendering of a subtree on the main canvas: probes are counted, <use> is
+// replaced by its target, a shape with vertices is followed by the content of its markers, once per
+// vertex of the position (SVG 1.1 §11.6.2: start = first vertex, end = last vertex, mid = every
+// other one).  inProgress holds the ids whose expansion is under way; revisiting one is a cycle
+// (cut there).  mult is the number of instances of the subtree.
+func (g *refGen) expand(n *rnode, inProgress map[string]bool, render bool, mult int, budget *int) {
 	if *budget <= 0 {
 		return
 	}
@@ -135,16 +254,65 @@ func (g *refGen) expand(n *rnode, inProgress map[string]bool, render bool, budge
 			g.spec.UseCycle = true
 			return
 		}
+		if render {
+			for _, rf := range n.refs {
+				if m := g.byID[rf.id]; m != nil && m.tag == "marker" && kindMatches(rf.attr, "marker") {
+					// marker properties are inherited by the referenced content: not modelled
+					g.loose("marker property on a <use>")
+				}
+			}
+		}
 		inProgress[n.href] = true
-		g.expand(t, inProgress, render, budget)
+		g.expand(t, inProgress, render, mult, budget)
 		delete(inProgress, n.href)
 	case "g", "svg":
 		for _, c := range n.children {
-			g.expand(c, inProgress, render, budget)
+			g.expand(c, inProgress, render, mult, budget)
 		}
-	case "rect", "path", "line", "polygon":
-		if render && n.color != 0 {
-			g.counts[n.color]++
+	case "rect", "path", "line", "polygon", "polyline":
+		if !render {
+			return
+		}
+		if n.color != 0 {
+			g.counts[n.color] += mult
+		}
+		if n.nverts == 0 {
+			return
+		}
+		for _, pos := range []string{"marker-start", "marker-mid", "marker-end"} {
+			k := 1
+			switch {
+			case pos == "marker-mid":
+				k = n.nverts - 2
+			case pos == "marker-end" && n.nverts < 2:
+				k = 0
+			}
+			m := g.byID[n.markerAt(pos)]
+			if k <= 0 || m == nil || m.tag != "marker" {
+				continue
+			}
+			if n.closed && pos == "marker-mid" {
+				// the closing segment of a polygon ends at a vertex of its own: implementations differ
+				g.loose("mid markers of a <polygon>")
+			}
+			key := "marker:" + m.id
+			if inProgress[key] {
+				g.loose("marker cycle cut")
+				continue
+			}
+			if mult*k > 4000 {
+				*budget = 0
+				return
+			}
+			g.spec.MarkerDraws += mult * k
+			if g.laterBack[m.id] {
+				g.spec.CycLaterDrawn++
+			}
+			inProgress[key] = true
+			for _, c := range m.children {
+				g.expand(c, inProgress, render, mult*k, budget)
+			}
+			delete(inProgress, key)
 		}
 	}
 	// definitions (gradients, patterns, clipPath, mask, marker, defs) render nothing when used
@@ -159,14 +327,21 @@ func genRefs(r *rand.Rand) *In {
 	}
 }
 
+// dref is a reference found in the content of a clipPath / mask / marker definition.
+type dref struct {
+	attr, id string
+	child    int  // index of the child of the definition holding it (-1: the definition element itself)
+	nested   bool // below a <g> of the content
+}
+
 func genRefsOnce(r *rand.Rand) *In {
 	in := &In{Mode: "refs", W: 200, H: 200}
-	g := &refGen{r: r, byID: map[string]*rnode{}, spec: &RefSpec{}, counts: map[int]int{}}
+	g := &refGen{r: r, byID: map[string]*rnode{}, spec: &RefSpec{}, counts: map[int]int{}, laterBack: map[string]bool{}, leadsLater: map[string]bool{}}
 	in.Refs = g.spec
 	nDefs := 1 + r.Intn(6)
 	var defs, all []*rnode
 	// first choose kinds and ids so that references can point forwards and backwards
-	kinds := []string{"g", "g", "use", "use", "shape", "linearGradient", "radialGradient", "pattern", "clipPath", "mask", "marker"}
+	kinds := []string{"g", "g", "use", "use", "shape", "linearGradient", "radialGradient", "pattern", "clipPath", "mask", "marker", "marker", "marker"}
 	for i := 0; i < nDefs; i++ {
 		k := kinds[r.Intn(len(kinds))]
 		n := &rnode{tag: k, id: fmt.Sprintf("n%d", i)}
@@ -178,6 +353,7 @@ func genRefsOnce(r *rand.Rand) *In {
 		g.ids = append(g.ids, n.id)
 		g.byID[n.id] = n
 	}
+	g.defs = defs
 	refTo := func(self string) string {
 		if self != "" && r.Intn(6) == 0 {
 			return self
@@ -202,7 +378,93 @@ func genRefsOnce(r *rand.Rand) *In {
 		}
 		return n
 	}
-	defRef := map[string][]string{} // clipPath/mask/marker id -> ids referenced from its content or itself
+	// markerRefs: the `marker` shorthand alone, or any subset of the three specific properties
+	markerRefs := func(n *rnode, p int, target func(attr string) string) {
+		if r.Intn(4) == 0 {
+			if r.Intn(p) == 0 {
+				n.refs = append(n.refs, nref{"marker", target("marker")})
+			}
+			return
+		}
+		for _, a := range []string{"marker-start", "marker-mid", "marker-end"} {
+			if r.Intn(p) == 0 {
+				n.refs = append(n.refs, nref{a, target(a)})
+			}
+		}
+	}
+	// content of a clipPath / mask / marker definition: one to three children, each a shape or a
+	// <g> around a shape; every child may reference any definition — the one it belongs to
+	// included — through clip-path / mask / marker*, the property of its own definition's kind
+	// being the most frequent.  Such references must be ignored when they lead back to a definition
+	// under way, whichever child holds them (cycles recursed without end on the snapshot tree:
+	// findings/C18/clip-path-cycle.json …, repaired).
+	defRefs := map[string][]dref{}
+	defContent := func(n *rnode, own string, shape func() *rnode) {
+		target := func(attr string) string {
+			if r.Intn(5) == 0 {
+				return n.id
+			}
+			return g.fitID(attr)
+		}
+		nc := []int{1, 1, 2, 2, 3}[r.Intn(5)]
+		for ci := 0; ci < nc; ci++ {
+			sh := shape()
+			holder := sh // element carrying clip-path / mask (markers always sit on the shape: the property is inherited)
+			child := sh
+			nested := false
+			if r.Intn(5) == 0 {
+				child = &rnode{tag: "g", children: []*rnode{sh}}
+				nested = true
+				if r.Intn(2) == 0 {
+					holder = child
+				}
+			}
+			for _, a := range []string{"clip-path", "mask"} {
+				p := 5
+				if a == own {
+					p = 2
+				}
+				if r.Intn(p) == 0 {
+					holder.refs = append(holder.refs, nref{a, target(a)})
+				}
+			}
+			if sh.nverts > 0 {
+				p := 5
+				if own == "marker" {
+					p = 3
+				}
+				markerRefs(sh, p, target)
+			}
+			for _, e := range []*rnode{child, sh} {
+				for _, rf := range e.refs {
+					defRefs[n.id] = append(defRefs[n.id], dref{rf.attr, rf.id, ci, nested})
+				}
+				if e == sh && child == sh {
+					break
+				}
+			}
+			n.children = append(n.children, child)
+		}
+		if own != "marker" && r.Intn(4) == 0 {
+			id := target(own)
+			n.refs = append(n.refs, nref{own, id})
+			defRefs[n.id] = append(defRefs[n.id], dref{own, id, -1, false})
+		}
+		if nc > 1 {
+			g.spec.MultiChild++
+		}
+	}
+	plain := func(fill string) func() *rnode {
+		return func() *rnode {
+			switch r.Intn(3) {
+			case 0:
+				return &rnode{tag: "path", attrs: fmt.Sprintf(` d="M0 0 L150 20 L20 150 z"%s`, fill), nverts: 4}
+			case 1:
+				return &rnode{tag: "polyline", attrs: fmt.Sprintf(` points="0,0 150,0 150,150"%s`, fill), nverts: 3}
+			}
+			return &rnode{tag: "rect", attrs: fmt.Sprintf(` x="0" y="0" width="150" height="150"%s`, fill)}
+		}
+	}
 	for _, n := range defs {
 		switch n.tag {
 		case "g":
@@ -227,72 +489,75 @@ func genRefsOnce(r *rand.Rand) *In {
 			if r.Intn(2) == 0 {
 				n.href = serverRef(n.id)
 			}
-			fill := `#777`
-			if r.Intn(2) == 0 {
-				fill = fmt.Sprintf("url(#%s)", refTo(n.id)) // pattern content painted with a pattern, possibly itself
+			nc := 1 + r.Intn(3)/2
+			for ci := 0; ci < nc; ci++ {
+				fill := `#777`
+				if r.Intn(2) == 0 {
+					fill = fmt.Sprintf("url(#%s)", refTo(n.id)) // pattern content painted with a pattern, possibly itself
+				}
+				n.children = append(n.children, &rnode{tag: "rect", attrs: fmt.Sprintf(` x="%d" width="6" height="6" fill="%s"`, 2*ci, fill)})
 			}
-			n.children = append(n.children, &rnode{tag: "rect", attrs: fmt.Sprintf(` width="6" height="6" fill="%s"`, fill)})
+			if nc > 1 {
+				g.spec.MultiChild++
+			}
 		case "clipPath":
-			// content (and the definition itself) may be clipped by any clipPath, itself included:
-			// such references must be ignored, not followed (cycles recursed without end on the
-			// snapshot tree: findings/C18/clip-path-cycle.json, repaired)
-			child := &rnode{tag: "rect", attrs: ` x="0" y="0" width="150" height="150"`}
-			if r.Intn(2) == 0 {
-				id := refTo(n.id)
-				child.attrs += fmt.Sprintf(` clip-path="url(#%s)"`, id)
-				defRef[n.id] = append(defRef[n.id], id)
-			}
-			if r.Intn(4) == 0 {
-				id := refTo(n.id)
-				n.attrs += fmt.Sprintf(` clip-path="url(#%s)"`, id)
-				defRef[n.id] = append(defRef[n.id], id)
-			}
-			n.children = append(n.children, child)
+			defContent(n, "clip-path", plain(""))
 		case "mask":
-			child := &rnode{tag: "rect", attrs: ` x="0" y="0" width="150" height="150" fill="#fff"`}
-			if r.Intn(2) == 0 {
-				id := refTo(n.id)
-				child.attrs += fmt.Sprintf(` mask="url(#%s)"`, id)
-				defRef[n.id] = append(defRef[n.id], id)
-			}
-			if r.Intn(4) == 0 {
-				id := refTo(n.id)
-				n.attrs += fmt.Sprintf(` mask="url(#%s)"`, id)
-				defRef[n.id] = append(defRef[n.id], id)
-			}
-			n.children = append(n.children, child)
+			defContent(n, "mask", plain(` fill="#fff"`))
 		case "marker":
 			n.attrs = ` markerWidth="4" markerHeight="4"`
-			child := &rnode{tag: "path", attrs: ` d="M0 0 L4 2 L0 4 z" fill="#333"`}
-			if r.Intn(2) == 0 {
-				id := refTo(n.id)
-				child.attrs += fmt.Sprintf(` %s="url(#%s)"`, []string{"marker", "marker-start", "marker-mid", "marker-end"}[r.Intn(4)], id)
-				defRef[n.id] = append(defRef[n.id], id)
+			if r.Intn(4) == 0 {
+				n.attrs += fmt.Sprintf(` overflow="%s"`, []string{"visible", "hidden", "scroll", "auto"}[r.Intn(4)])
 			}
-			n.children = append(n.children, child)
+			if r.Intn(4) == 0 {
+				n.attrs += ` markerUnits="userSpaceOnUse"`
+			}
+			defContent(n, "marker", g.markerContent)
 		}
 	}
-	// which clipPath / mask / marker definitions lead into a cycle of their own kind
-	cyclic := map[string]bool{}
+	// the reference graph among clipPath / mask / marker definitions (an edge needs an attribute of
+	// the kind of its target: clip-path="url(#aMarker)" references nothing)
+	isDef := func(t *rnode) bool { return t != nil && (t.tag == "clipPath" || t.tag == "mask" || t.tag == "marker") }
+	succ := map[string][]string{}
 	for _, n := range defs {
-		if n.tag != "clipPath" && n.tag != "mask" && n.tag != "marker" {
+		if !isDef(n) {
 			continue
 		}
-		var visit func(id string, path map[string]bool) bool
-		visit = func(id string, path map[string]bool) bool {
-			if path[id] {
-				return true
+		for _, d := range defRefs[n.id] {
+			if t := g.byID[d.id]; isDef(t) && kindMatches(d.attr, t.tag) {
+				succ[n.id] = append(succ[n.id], d.id)
 			}
-			path[id] = true
-			defer delete(path, id)
-			for _, nx := range defRef[id] {
-				if t := g.byID[nx]; t != nil && t.tag == n.tag && visit(nx, path) {
-					return true
-				}
-			}
-			return false
 		}
-		if visit(n.id, map[string]bool{}) {
+	}
+	reach := map[string]map[string]bool{} // id -> definitions reachable in one step or more
+	for _, n := range defs {
+		if !isDef(n) {
+			continue
+		}
+		seen := map[string]bool{}
+		stack := append([]string(nil), succ[n.id]...)
+		for len(stack) > 0 {
+			id := stack[len(stack)-1]
+			stack = stack[:len(stack)-1]
+			if seen[id] {
+				continue
+			}
+			seen[id] = true
+			stack = append(stack, succ[id]...)
+		}
+		reach[n.id] = seen
+	}
+	onCycle := func(id string) bool { return reach[id][id] }
+	cyclic := map[string]bool{} // leads into a cycle
+	for _, n := range defs {
+		if !isDef(n) {
+			continue
+		}
+		c := onCycle(n.id)
+		for id := range reach[n.id] {
+			c = c || onCycle(id)
+		}
+		if c {
 			cyclic[n.id] = true
 			switch n.tag {
 			case "clipPath":
@@ -303,33 +568,76 @@ func genRefsOnce(r *rand.Rand) *In {
 				g.spec.CycMarker++
 			}
 		}
-	}
-	// rendered content
-	var top []*rnode
-	refAttrs := func() string {
-		s := ""
-		for _, a := range []string{"clip-path", "mask", "marker-start", "marker-mid", "marker-end", "marker", "filter"} {
-			if r.Intn(5) == 0 {
-				id := g.anyID()
-				// half of the time a definition of the right kind, when there is one
-				var fit []string
-				for _, d := range defs {
-					if kindMatches(a, d.tag) {
-						fit = append(fit, d.id)
-					}
-				}
-				if len(fit) > 0 && r.Intn(2) == 0 {
-					id = fit[r.Intn(len(fit))]
-				}
-				s += fmt.Sprintf(` %s="url(#%s)"`, a, id)
-				if t := g.byID[id]; t == nil || !kindMatches(a, t.tag) {
-					g.spec.Missing++
-				} else if cyclic[id] {
-					g.spec.CycUsed++
+		if onCycle(n.id) {
+			for id := range reach[n.id] {
+				if g.byID[id].tag != n.tag && reach[id][n.id] {
+					g.spec.CycCross++
+					break
 				}
 			}
 		}
-		return s
+		later, nested := false, false
+		for _, d := range defRefs[n.id] {
+			t := g.byID[d.id]
+			if !isDef(t) || !kindMatches(d.attr, t.tag) || !(d.id == n.id || reach[d.id][n.id]) {
+				continue
+			}
+			later = later || d.child >= 1
+			nested = nested || d.nested
+		}
+		if later {
+			g.laterBack[n.id] = true
+			g.spec.CycLater++
+		}
+		if nested {
+			g.spec.CycNested++
+		}
+	}
+	for _, n := range defs {
+		if !isDef(n) {
+			continue
+		}
+		l := g.laterBack[n.id]
+		for id := range reach[n.id] {
+			l = l || g.laterBack[id]
+		}
+		g.leadsLater[n.id] = l
+	}
+	// rendered content
+	var top []*rnode
+	note := func(rf nref) {
+		if t := g.byID[rf.id]; t == nil || !kindMatches(rf.attr, t.tag) {
+			g.spec.Missing++
+		} else {
+			if cyclic[rf.id] {
+				g.spec.CycUsed++
+			}
+			if g.leadsLater[rf.id] {
+				g.spec.CycLaterUsed++
+			}
+		}
+	}
+	refAttrs := func(n *rnode) {
+		from := len(n.refs)
+		for _, a := range []string{"clip-path", "mask", "filter"} {
+			if r.Intn(5) == 0 {
+				n.refs = append(n.refs, nref{a, g.fitID(a)})
+			}
+		}
+		mp := 4
+		if n.nverts > 0 {
+			mp = 2 // elements that have vertices carry markers more often
+		}
+		markerRefs(n, mp, g.fitID)
+		for _, rf := range n.refs[from:] {
+			note(rf)
+		}
+	}
+	for _, n := range defs {
+		// a shape of <defs> is rendered through <use> only; it may carry references as well
+		if n.color != 0 && r.Intn(3) == 0 {
+			refAttrs(n)
+		}
 	}
 	nTop := 1 + r.Intn(4)
 	for i := 0; i < nTop; i++ {
@@ -337,10 +645,10 @@ func genRefsOnce(r *rand.Rand) *In {
 		switch r.Intn(5) {
 		case 0, 1:
 			n = g.probe()
-			n.attrs += refAttrs()
+			refAttrs(n)
 		case 2:
 			n = newUse("")
-			n.attrs += refAttrs()
+			refAttrs(n)
 		case 3:
 			// paint-server user: identified by geometry
 			g.nextX += 10
@@ -355,7 +663,8 @@ func genRefsOnce(r *rand.Rand) *In {
 			if r.Intn(4) == 0 {
 				which, other = "stroke", ` fill="none"`
 			}
-			n.attrs = fmt.Sprintf(` x="%g" y="3" width="30" height="20" %s="url(#%s)%s"%s`, n.probeX, which, id, fb, other) + refAttrs()
+			n.attrs = fmt.Sprintf(` x="%g" y="3" width="30" height="20" %s="url(#%s)%s"%s`, n.probeX, which, id, fb, other)
+			refAttrs(n)
 			if t := g.byID[id]; t == nil || !kindMatches("fill", t.tag) {
 				g.spec.Missing++
 			}
@@ -364,6 +673,9 @@ func genRefsOnce(r *rand.Rand) *In {
 			n.children = append(n.children, g.probe(), newUse(""))
 		}
 		top = append(top, n)
+	}
+	if g.nextC > 48 {
+		return nil // the colour scheme identifies at most 50 probes
 	}
 	all = append(all, defs...)
 	all = append(all, top...)
@@ -407,18 +719,23 @@ func genRefsOnce(r *rand.Rand) *In {
 				seen[nx.id] = true
 				cur = nx
 			}
-			if n.tag == "pattern" && strings.Contains(n.children[0].attrs, "url(#"+n.id+")") {
-				g.spec.CycPat++
+			if n.tag == "pattern" {
+				for _, c := range n.children {
+					if strings.Contains(c.attrs, "url(#"+n.id+")") {
+						g.spec.CycPat++
+						break
+					}
+				}
 			}
 		}
 	}
 	budget := 5000
 	// every <use> in the document is resolved by an implementation, rendered or not: look for cycles everywhere
 	for _, n := range defs {
-		g.expand(n, map[string]bool{}, false, &budget)
+		g.expand(n, map[string]bool{}, false, 1, &budget)
 	}
 	for _, n := range top {
-		g.expand(n, map[string]bool{}, true, &budget)
+		g.expand(n, map[string]bool{}, true, 1, &budget)
 	}
 	if budget <= 0 {
 		return nil // expansion too large: draw another graph
@@ -426,7 +743,7 @@ func genRefsOnce(r *rand.Rand) *In {
 	var collect func(n *rnode)
 	collect = func(n *rnode) {
 		if n.color != 0 {
-			g.spec.Shapes = append(g.spec.Shapes, RefShape{Color: n.color, Count: g.counts[n.color]})
+			g.spec.Shapes = append(g.spec.Shapes, RefShape{Color: n.color, Count: g.counts[n.color], Mk: n.inMarker, Loose: n.inMarker && g.spec.MarkerLoose != ""})
 		}
 		for _, c := range n.children {
 			collect(c)
@@ -479,6 +796,12 @@ func kindMatches(attr, tag string) bool {
 	return tag == "marker"
 }
 
+// maxRepeat bounds how often a shape may be painted when the specification leaves the number open
+// (document with a cyclic <use>, marker content when a marker cycle had to be cut): the finite
+// expansions of the generated graphs stay below 4 000 instances, anything above is "followed
+// without end" stopped by luck.
+const maxRepeat = 5000
+
 func checkRefs(in *In, res *fw.Result) {
 	sp := in.Refs
 	if sp == nil {
@@ -496,6 +819,12 @@ func checkRefs(in *In, res *fw.Result) {
 	res.Count("refs_cycle_mask", int64(sp.CycMask))
 	res.Count("refs_cycle_marker", int64(sp.CycMarker))
 	res.Count("refs_cycle_def_used", int64(sp.CycUsed))
+	res.Count("refs_def_multi_child", int64(sp.MultiChild))
+	res.Count("refs_cycle_cross_kind", int64(sp.CycCross))
+	res.Count("refs_cycle_via_later_child", int64(sp.CycLater))
+	res.Count("refs_cycle_via_nested_child", int64(sp.CycNested))
+	res.Count("refs_cycle_later_child_used", int64(sp.CycLaterUsed))
+	res.Count("refs_marker_cycle_later_child_drawn", int64(sp.CycLaterDrawn))
 	res.Nontrivial = sp.Missing+sp.CycGrad+sp.CycPat+sp.CycUsed > 0 || sp.UseCycle
 	if d.err != nil {
 		if sp.UseCycle {
@@ -508,6 +837,9 @@ func checkRefs(in *In, res *fw.Result) {
 	}
 	if sp.UseCycle {
 		res.Count("refs_cycle_use_accepted", 1)
+	}
+	if !sp.UseCycle && sp.MarkerLoose == "" {
+		res.Count("refs_marker_instances_expected", int64(sp.MarkerDraws))
 	}
 	for _, s := range sp.Shapes {
 		n := 0
@@ -522,12 +854,15 @@ func checkRefs(in *In, res *fw.Result) {
 				n++
 			}
 		}
-		if sp.UseCycle {
-			// the document was accepted although it has a cyclic <use>: the cut is the implementation's
-			// choice, only unbounded repetition is excluded
-			if n > 5000 {
-				res.Fail("refs-count", fmt.Sprintf("%s: probe %v painted %d times", in.SVG, s, n))
+		if sp.UseCycle || s.Loose {
+			// the document was accepted although it has a cyclic <use>, or a marker cycle was cut:
+			// where to cut is the implementation's choice, only unbounded repetition is excluded
+			if n > maxRepeat {
+				res.Fail("refs-count", fmt.Sprintf("%s: probe %+v painted %d times", in.SVG, s, n))
 				return
+			}
+			if s.Loose {
+				res.Count("refs_marker_content_bounded", 1)
 			}
 			continue
 		}
@@ -536,9 +871,19 @@ func checkRefs(in *In, res *fw.Result) {
 			if s.Color == 0 {
 				what = fmt.Sprintf("x=%g", s.X)
 			}
-			res.Fail("refs-count", fmt.Sprintf("%s: the shape with %s must be painted %d time(s) (finite expansion of <use>, missing and cyclic paint-server references ignored) but is painted %d time(s)", in.SVG, what, s.Count, n))
+			rule := "finite expansion of <use>, missing and cyclic paint-server references ignored"
+			if s.Mk {
+				rule = "content of a <marker>: one instance per vertex of the position on every rendered path / line / polyline / polygon referencing it, none otherwise"
+			}
+			res.Fail("refs-count", fmt.Sprintf("%s: the shape with %s must be painted %d time(s) (%s) but is painted %d time(s)", in.SVG, what, s.Count, rule, n))
 			return
 		}
 		res.Count("refs_shapes_counted", 1)
+		if s.Mk {
+			res.Count("refs_marker_content_counted", 1)
+			if s.Count > 0 {
+				res.Count("refs_marker_content_drawn", 1)
+			}
+		}
 	}
 }
